@@ -1050,16 +1050,26 @@ def range_rule(ctx):
                     o = qa.origin(gt["op"])
                     if o[0] == "rv" and o[1]["k"] == "discr":
                         continue              # the `?` on the inner decode
+                    f_t, t_t = bool_switch_targets(gt)
+                    truth = True if b in qa.reachable(t_t, avoid={gb}) and b not in qa.reachable(f_t, avoid={gb}) else \
+                        False if b in qa.reachable(f_t, avoid={gb}) and b not in qa.reachable(t_t, avoid={gb}) else None
                     if o[0] == "rv" and o[1]["k"] == "unop" and o[1]["op"] == "Not":
+                        o = qa.origin(o[1]["a"])
+                        truth = None if truth is None else not truth
+                    if o[0] == "call" and (callee_of(o[2]) or {}).get("name") == "contains" and len(o[2]["args"]) == 2:
+                        # `CONST_RANGE.contains(&x)` with a constant half-open range of u32
+                        kr = find_const(qa, o[2]["args"][0])
+                        if truth and kr is not None and "int" in kr and \
+                                str(kr.get("ty", "")).replace(" ", "").endswith("ops::Range<u32>"):
+                            lo = max(lo, kr["int"] & 0xffffffff)
+                            hi = min(hi, (kr["int"] >> 32) - 1)
+                            continue
                         unknown.append(qa.loc(gb))
                         continue
                     if o[0] != "rv" or o[1]["k"] != "binop" or o[1]["op"] not in ("Le", "Lt", "Ge", "Gt"):
                         unknown.append(qa.loc(gb))
                         continue
                     ka, kb = find_const(qa, o[1]["a"]), find_const(qa, o[1]["b"])
-                    f_t, t_t = bool_switch_targets(gt)
-                    truth = True if b in qa.reachable(t_t, avoid={gb}) and b not in qa.reachable(f_t, avoid={gb}) else \
-                        False if b in qa.reachable(f_t, avoid={gb}) and b not in qa.reachable(t_t, avoid={gb}) else None
                     opx = o[1]["op"]
                     if truth is None or (ka is None) == (kb is None):
                         unknown.append(qa.loc(gb))
